@@ -98,7 +98,7 @@ def gen_triple(rng, tier):
     r = rng.random()
     base = [rng.choice(pool) for _ in range(rng.randint(0, 8))]
     rs = rng.random()
-    if flavour == "sentinel-start" and rs < 0.45:
+    if flavour == "sentinel-start" and rs < 0.55:
         # a sentinel-prefixed line that occurs in exactly ONE of the three texts, inside a truly conflicting region
         # (with show_base the BASE-only line must come out verbatim in the BASE section of the marked-up file)
         who = rng.choice(["base", "base", "this", "other"])
@@ -114,7 +114,7 @@ def gen_triple(rng, tier):
             j = rng.randrange(len(base))
             if abs(j - i) > 1:
                 this[j], other[j] = rng.sample([b for b in PLAIN if b != base[j]], 2)
-    elif flavour == "sentinel-start" and rs < 0.8:
+    elif flavour == "sentinel-start" and rs < 0.85:
         # a clean merge whose result contains a user line beginning with the sentinel: the sides edit lines far apart
         shape = "far-apart"
         base = [rng.choice(PLAIN) for _ in range(rng.randint(4, 8))]
@@ -203,7 +203,7 @@ def _commit(wt, msg, n, git):
     return wt.commit(msg, **kw)
 
 
-def _build(ctx, fmt, name, B, T, O, cherry, uncommitted, added_both=False):
+def _build(ctx, fmt, name, B, T, O, cherry, uncommitted, added_both=False, rename_to=None):
     """Real branches.  Returns (this_dir, other_dir, base_revid or None, other_revid).
 
     added_both: the common ancestor has no such file; THIS and OTHER each add it at the same path (and, on bzr,
@@ -254,6 +254,8 @@ def _build(ctx, fmt, name, B, T, O, cherry, uncommitted, added_both=False):
     _write(owt, name, to)
     other_rev = _commit(owt, "other", 1, git)
     _write(wt, name, tt)
+    if rename_to:
+        wt.rename_one(name, rename_to)  # stays uncommitted, like the new text
     if not uncommitted:
         _commit(wt, "this", 2, git)
     return first, odir, None, other_rev
@@ -358,14 +360,19 @@ def case(ctx):
     if added_both:
         B = []  # no BASE text at all: the file is added on both sides
     name = rng.choice(NAMES)
+    # THIS also renamed the file, uncommitted (file ids only: a path-based tree would see a deletion plus an unrelated new file)
+    rename_to = name + "-moved" if (uncommitted and not added_both and not git and rng.random() < 0.3) else None
     tb, tt, to = b"".join(B), b"".join(T), b"".join(O)
     desc = {"base": [x.decode("latin-1") for x in B], "this": [x.decode("latin-1") for x in T], "other": [x.decode("latin-1") for x in O],
-            "format": fmt, "cherrypick": cherry, "this_uncommitted": uncommitted, "added_on_both_sides": added_both, "name": name, **meta}
+            "format": fmt, "cherrypick": cherry, "this_uncommitted": uncommitted, "added_on_both_sides": added_both, "name": name, "this_renamed_to": rename_to, **meta}
     ctx.info["case"] = desc
     try:
-        tdir, odir, base_rev, other_rev = _build(ctx, fmt, name, B, T, O, cherry, uncommitted, added_both)
+        tdir, odir, base_rev, other_rev = _build(ctx, fmt, name, B, T, O, cherry, uncommitted, added_both, rename_to)
     except errors.BzrError as e:
         ctx.discard("build:%s" % type(e).__name__)
+    if rename_to:
+        name = rename_to  # from here on `name` is the file's path in THIS, where the merge result and the helpers belong
+        ctx.count("this_renamed_uncommitted")
     # (a file absent from BASE differs from both sides whatever they hold, even if one of them is empty)
     needs_text_merge = tt != to and (added_both or (tb != tt and tb != to))
     ctx.hist("flavour:" + meta["flavour"])
@@ -394,7 +401,7 @@ def case(ctx):
         before = observe.snap_disk(mdir)
         opts = {"merger": mt.__name__, "reprocess": reprocess, "show_base": show_base}
         detail = dict(desc, **opts)
-        sig = (desc["base"], desc["this"], desc["other"], fmt, cherry, uncommitted, added_both, mt.__name__, reprocess, show_base)
+        sig = (desc["base"], desc["this"], desc["other"], fmt, cherry, uncommitted, added_both, bool(rename_to), mt.__name__, reprocess, show_base)
         ref3 = mt is Merge3Merger
         try:
             cooked, merger = _merge(wt, odir, mt, base_rev, other_rev, reprocess, show_base)
